@@ -8,7 +8,11 @@ import (
 	"verif/vk"
 )
 
-var copKinds = []string{"put", "put", "putNew", "putNew", "putNew", "putNew", "get", "get", "get", "has", "remove", "remove", "clear"}
+var copKinds = []string{"put", "put", "putNew", "putNew", "putNew", "putNew", "get", "get", "get", "has", "remove", "remove", "clear", "putSame", "putEq"}
+
+// optOrders: the options in both orders, an option given twice, options set on
+// a discarded copy, no callback, nothing at all (see CacheCase.Opts).
+var optOrders = []string{"SE", "SE", "SE", "ES", "EES", "ESS", "SES", "ESE", "SSEE", "xE", "ExS", "SyE", "yxSE", "S", "-"}
 
 func genCOp(kinds []string) *rapid.Generator[COp] {
 	return rapid.Custom(func(t *rapid.T) COp {
@@ -16,7 +20,7 @@ func genCOp(kinds []string) *rapid.Generator[COp] {
 		if op.Kind != "clear" {
 			op.K = rapid.IntRange(0, 80).Draw(t, "key")
 		}
-		if op.Kind == "put" || op.Kind == "putNew" {
+		if op.Kind == "put" || op.Kind == "putNew" || op.Kind == "putSame" || op.Kind == "putEq" {
 			op.S = rapid.IntRange(0, 32).Draw(t, "s")
 		}
 		return op
@@ -27,6 +31,15 @@ func genCacheCase(t *rapid.T) CacheCase {
 	c := CacheCase{
 		Limit:    rapid.OneOf(rapid.IntRange(1, 12), rapid.IntRange(6, 12), rapid.IntRange(1, 12), rapid.IntRange(13, 70)).Draw(t, "limit"),
 		SizeMode: rapid.SampledFrom([]string{"unit", "unit", "val"}).Draw(t, "sizeMode"),
+	}
+	if rapid.Bool().Draw(t, "kinded") {
+		// half of the cases keep Cache[int, Val] and today's option order
+		c.Elem = rapid.SampledFrom(append([]string{""}, valKinds...)).Draw(t, "elem")
+		c.KElem = rapid.SampledFrom(append([]string{"", ""}, keyKinds...)).Draw(t, "kelem")
+		if rapid.Bool().Draw(t, "reorder") {
+			c.Opts = rapid.SampledFrom(optOrders).Draw(t, "opts")
+		}
+		c.Probe = rapid.Bool().Draw(t, "probe")
 	}
 	c.Ops = rapid.SliceOfN(genCOp(copKinds), 0, vk.MaxOps(t, 60, 500)).Draw(t, "ops")
 	if c.Limit > 12 {
@@ -48,6 +61,26 @@ func genCacheCase(t *rapid.T) CacheCase {
 			ops = append(ops, COp{Kind: "putNew", K: rapid.IntRange(0, 80).Draw(t, "refill"), S: 1})
 		}
 		c.Ops = append(ops, c.Ops[mid:]...)
+	}
+	if rapid.IntRange(0, 3).Draw(t, "newestRemoved") == 0 {
+		// at the very start: fill exactly to the limit (keys 0..limit-1, key 0 is
+		// the zero value of the key type), Remove the most recently used entry or
+		// one of the older ones, Get an older one (often the oldest) at once, Put
+		// absent keys until entries from both sides of the touched one are gone
+		var pre []COp
+		for k := 0; k < c.Limit; k++ {
+			pre = append(pre, COp{Kind: "put", K: k, S: 1})
+		}
+		rm := c.Limit - 1
+		if rapid.IntRange(0, 2).Draw(t, "rmOlder") == 0 {
+			rm = rapid.IntRange(0, c.Limit-1).Draw(t, "rmKey")
+		}
+		touch := rapid.OneOf(rapid.Just(0), rapid.IntRange(0, max(0, c.Limit-2))).Draw(t, "touchOld")
+		pre = append(pre, COp{Kind: "remove", K: rm}, COp{Kind: "get", K: touch})
+		for j := 0; j < 3; j++ {
+			pre = append(pre, COp{Kind: "putNew", K: c.Limit + j, S: 1})
+		}
+		c.Ops = append(pre, c.Ops...)
 	}
 	return c
 }
